@@ -2,7 +2,7 @@
    for any number of threads and any order of events. *)
 From Coq Require Import Arith List Bool Lia.
 Import ListNotations.
-From Cffi Require Import C36.Model.
+From Cffi Require Import C36.Model C36.Gen.
 
 Definition b2n (b : bool) : nat := if b then 1 else 0.
 (* how many unreturned gil_ensure / PyGILState_Ensure calls the thread has on its thread state *)
@@ -75,8 +75,14 @@ Ltac destr_ex :=
          | H : exists _, _ |- _ => destruct H
          end.
 
+(* the regenerated facts of C36/Gen.v that step_fn consults are evaluated here: the proofs below are
+   about the model instantiated with the CURRENT source's facts *)
+Ltac gen_facts Hs :=
+  cbv beta iota delta [bump negb gen_gil_ensure_incr_unlocked gen_gil_ensure_incr_locked gen_gil_release_plain
+                       gen_register_sweeps_first gen_register_sets_local gen_register_incr] in Hs.
+
 Ltac open_step Hs :=
-  unfold step, step_fn in Hs;
+  unfold step, step_fn in Hs; gen_facts Hs;
   repeat match type of Hs with
          | match ?x with _ => _ end = Some _ => destruct x eqn:?
          | (let '(_, _) := ?x in _) = Some _ => destruct x eqn:?
@@ -266,7 +272,7 @@ Qed.
 
 Lemma inv_clear s s' : Inv s -> step s EvSweepClear s' -> Inv s'.
 Proof.
-  intros HI Hs. unfold step, step_fn in Hs.
+  intros HI Hs. unfold step, step_fn in Hs; gen_facts Hs.
   destruct (finalized s) eqn:Ef; try discriminate.
   destruct (reg s) as [[t [|c ts|]]|] eqn:Er; try discriminate.
   sat HI. rewrite H3 in Hs. unfold dealloc in Hs. rewrite H1 in Hs. inversion Hs; subst; clear Hs.
@@ -292,7 +298,7 @@ Qed.
 
 Lemma inv_drop s t s' : Inv s -> step s (EvDictDrop t) s' -> Inv s'.
 Proof.
-  intros HI Hs. unfold step, step_fn in Hs.
+  intros HI Hs. unfold step, step_fn in Hs; gen_facts Hs.
   destruct (finalized s) eqn:Ef; try discriminate.
   destruct (thr s t) eqn:Et; try discriminate.
   destruct (reg s) eqn:Er; try discriminate.
@@ -492,7 +498,7 @@ Lemma drop_clears_backpointer : forall s t s', reach s -> step s (EvDictDrop t) 
   tlsc s' t = Some None /\ exists ts, gts s' t = Some ts /\ dropped s' ts = true /\
   exists k, tss s' ts = TsLive t k None.
 Proof.
-  intros s t s' Hr Hs. pose proof (reach_inv s Hr) as HI. unfold step, step_fn in Hs.
+  intros s t s' Hr Hs. pose proof (reach_inv s Hr) as HI. unfold step, step_fn in Hs; gen_facts Hs.
   destruct (finalized s) eqn:Ef; try discriminate.
   destruct (thr s t) eqn:Et; try discriminate.
   destruct (reg s) eqn:Er; try discriminate.
@@ -529,17 +535,17 @@ Proof.
   unfold sweeping_ok in Hok.
   destruct (reg s) as [[t [|c ts|]]|] eqn:Er; try contradiction.
   - destruct (step_fn s EvSweepPop) as [s1|] eqn:E; [|discriminate].
-    apply (IH s1 s'); auto. unfold step_fn in E. rewrite Er in E.
+    apply (IH s1 s'); auto. unfold step_fn in E; gen_facts E. rewrite Er in E.
     destruct (finalized s); try discriminate.
     destruct (zombies s) as [|c l]; [|destruct (cans s c)]; inversion E; subst; unfold sweeping_ok; cbn;
       rewrite ?Er; auto.
   - destruct (step_fn s EvSweepClear) as [s1|] eqn:E; [|discriminate].
-    apply (IH s1 s'); auto. unfold step_fn in E. rewrite Er in E.
+    apply (IH s1 s'); auto. unfold step_fn in E; gen_facts E. rewrite Er in E.
     destruct (finalized s); try discriminate.
     destruct (tss s ts) as [|o k d|]; try (inversion E; subst; unfold sweeping_ok; cbn; exact I).
     destruct (match d with Some c' => dealloc c' (cans s) (zombies s) (tlsc s) | None => (cans s, zombies s, tlsc s) end)
       as [[a b] c0]. inversion E; subst; unfold sweeping_ok; cbn; exact I.
-  - unfold step_fn in H. rewrite Er in H. destruct (finalized s); try discriminate.
+  - unfold step_fn in H; gen_facts H. rewrite Er in H. destruct (finalized s); try discriminate.
     destruct (gts s t) as [ts|]; try discriminate. destruct (tss s ts); try discriminate.
     inversion H; subst; cbn. split; auto.
 Qed.
@@ -550,7 +556,7 @@ Lemma registration_empties s t s' : gts s t = None -> mstep s (MCb t) = Some s' 
 Proof.
   intros Hg H. cbn [mstep] in H. destruct (step_fn s (EvCb t)) as [s1|] eqn:E; [|discriminate].
   eapply sweep_all_empties; [|eauto].
-  unfold step_fn in E. destruct (finalized s); try discriminate.
+  unfold step_fn in E; gen_facts E. destruct (finalized s); try discriminate.
   destruct (thr s t); try discriminate. destruct (incb s t); try discriminate.
   destruct (busy s t); try discriminate. destruct (ownb s t); try discriminate.
   rewrite Hg in E. destruct (reg s); try discriminate.
